@@ -198,6 +198,8 @@ class Engine(object):
                 return self.funcref_of(v)
             if isinstance(v, (int, str, tuple, float, bool)):
                 return v
+            if isinstance(v, (dict, list)):
+                return from_py(v)
             return None
         return None
 
@@ -254,10 +256,48 @@ class Engine(object):
             return a is b
         self.prims["same_object"] = GhostPrim("same_object", same_object)
 
+        def is_periodic(ex, l, p, n):
+            """l == l[:p] * n + [l[0]]  (n >= 1)"""
+            if isinstance(l, RepList):
+                if len(l.base) != p or l.head or len(l.tail) != 1:
+                    return False
+                return mk_bool(z3.And(l.count == zint(n), z3.BoolVal(l.tail[0] is l.base[0])))
+            if isinstance(l, PList):
+                nv = concrete_int(zint(n))
+                acc = []
+                if nv is None:
+                    if (len(l.items) - 1) % p != 0 or len(l.items) < p + 1:
+                        return False
+                    nv = (len(l.items) - 1) // p
+                    acc.append(zint(n) == nv)
+                if len(l.items) != p * nv + 1 or nv < 1:
+                    return False
+                for i, x in enumerate(l.items):
+                    r = ex.equals(x, l.items[i % p], None) if i >= p else True
+                    if isinstance(r, bool):
+                        if not r:
+                            return False
+                    else:
+                        acc.append(r)
+                return mk_bool(z3.And(acc)) if acc else True
+            raise Unsupported("is_periodic of %r" % (l,))
+        self.prims["is_periodic"] = GhostPrim("is_periodic", is_periodic)
+
         def list_reverse_of(ex, a, b):
             """a is b reversed (goal position only: the universally quantified index is skolemised)"""
             if isinstance(a, PList) and isinstance(b, PList):
                 return ex.equals(a, PList(list(reversed(b.items))), None)
+            if isinstance(a, RepList) and isinstance(b, RepList):
+                if len(a.head) != len(b.tail) or len(a.base) != len(b.base) or len(a.tail) != len(b.head):
+                    return False
+                parts = [a.count == b.count]
+                for x, y in list(zip(a.head, reversed(b.tail))) + list(zip(a.base, reversed(b.base))) + \
+                        list(zip(a.tail, reversed(b.head))):
+                    r = ex.equals(x, y, None)
+                    parts.append(z3.BoolVal(r) if isinstance(r, bool) else r)
+                return mk_bool(z3.And(parts))
+            if isinstance(a, (RepList, PList)) and isinstance(b, (RepList, PList)):
+                return False
             if not ex.ctx.goal_mode:
                 raise Unsupported("list_reverse_of outside a goal")
             i = ex.ctx.fresh("sk_i")
@@ -324,6 +364,21 @@ class Engine(object):
             return tuple(self.fresh_of_type(ex, x, "%s[%d]" % (name, i), env) for i, x in enumerate(inner))
         if t.startswith("list[") and t.endswith("]"):
             return self.fresh_slist(ex, t[5:-1], name)
+        if t == "intset":
+            ctx.nfresh += 1
+            return SIntSet(ctx.nfresh)
+        if t.startswith("periodic[") and t.endswith("]"):
+            parts = split_top(t[9:-1])
+            p_s, cnt_s = parts[0], parts[1]
+            p_n = int(p_s)
+            cnt = ex.spec_eval(cnt_s, env)
+            base = [ctx.fresh_str("%s[%d]" % (name, i)) for i in range(p_n)]
+            if len(parts) > 2 and parts[2].startswith("="):
+                base[0] = ex.spec_eval(parts[2][1:], env)
+            cv = concrete_int(zint(cnt))
+            if cv is not None:
+                return PList(base * max(cv, 0) + [base[0]])
+            return RepList(base, zint(cnt), [base[0]])
         if t in self.classes:
             return self.fresh_object(ex, t, name)
         raise Unsupported("unknown type %r for %s" % (t, name))
@@ -406,7 +461,19 @@ class Engine(object):
             return mk_bool(z3.And(z3.Or(lows), z3.Not(z3.Or(ups))))
         if name == "format":
             return ex.opaque_str()
+        if name == "islower" and n is None:
+            # sound partial model: a string whose first character is an ASCII capital is not lower-case
+            b = ex.ctx.fresh("islower", BOOL)
+            c0 = s.at(0)
+            ex.ctx.assume(z3.Implies(z3.And(s.length >= 1, c0 >= 65, c0 <= 90), z3.Not(b)))
+            ex.ctx.tags.add("assumes: str.islower is False when the first character is an ASCII capital (partial model)")
+            return SBool(b)
+        if name in ("lower", "upper") and n is None:
+            return ex.engine.case_map_unbounded(ex, s, name)
         raise Unsupported("str.%s on a symbolic string" % name)
+
+    def case_map_unbounded(self, ex, s, name):
+        raise Unsupported("str.%s on a string of unknown length" % name)
 
     # ------------------------------------------------------------ contracts at call sites
     def resolve_exc(self, fref, ename):
@@ -462,7 +529,35 @@ class Engine(object):
             return self.assume_post(ex, chosen, env, fq)
         return self.assume_post(ex, contract, env, fq)
 
+    def value_key(self, v):
+        if isinstance(v, SStr):
+            return ("s", v.arr.get_id(), z3.simplify(v.off).get_id(), z3.simplify(v.length).get_id())
+        if isinstance(v, (SInt, SBool, SReal)):
+            return ("e", z3.simplify(v.e).get_id())
+        if isinstance(v, Obj):
+            return ("o", v.cls.__name__) + tuple((k, self.value_key(x)) for k, x in sorted(v.fields.items()))
+        if isinstance(v, PList):
+            return ("l",) + tuple(self.value_key(x) for x in v.items)
+        if isinstance(v, tuple):
+            return ("t",) + tuple(self.value_key(x) for x in v)
+        if isinstance(v, SIntSet):
+            return ("is", v.ident)
+        if isinstance(v, (RepList, SList, PDict, PSet)):
+            return ("id", id(v))
+        return ("c", repr(v))
+
     def assume_post(self, ex, c, env, fq):
+        if c.get("pure"):
+            key = (fq,) + tuple((k, self.value_key(v)) for k, v in sorted(env.items()))
+            memo = ex.ctx.__dict__.setdefault("pure_memo", {})
+            if key in memo:
+                return memo[key]
+            r = self._assume_post(ex, c, env, fq)
+            memo[key] = r
+            return r
+        return self._assume_post(ex, c, env, fq)
+
+    def _assume_post(self, ex, c, env, fq):
         old = {}
         for nm, expr in (c.get("old") or {}).items():
             old[nm] = ex.spec_eval(expr, env)
@@ -476,7 +571,13 @@ class Engine(object):
         else:
             res = self.fresh_of_type(ex, c.get("returns", "None"), "ret_" + fq.rsplit(".", 1)[-1], env)
         env["result"] = res
+        skip = ()
+        top = self.contracts.get(ex.top_fq) if ex.top_fq else None
+        if top:
+            skip = tuple(top.get("skip_callee_clauses") or ())
         for (nm, e) in self.norm_named(c.get("ensures"), "post"):
+            if nm in skip or "*" in skip and not nm.startswith(("one-octave", "twelve-notes", "begins-on")):
+                continue   # assuming less about a callee is always sound
             ex.ctx.assume(ex.spec_bool(e, env))
         return res
 
@@ -534,7 +635,11 @@ class Engine(object):
                 return True
             if a.startswith("(") and isinstance(v, tuple):
                 return True
-            if a.startswith("list[") and isinstance(v, (PList, SList)):
+            if a.startswith("list[") and isinstance(v, (PList, SList, RepList)):
+                return True
+            if a.startswith("periodic[") and isinstance(v, (PList, RepList)):
+                return True
+            if a == "intset" and isinstance(v, (SIntSet, tuple, PList, PSet)):
                 return True
             if a in self.classes and isinstance(v, Obj):
                 modname, _, cls = self.classes[a]["class"].rpartition(".")
@@ -582,6 +687,13 @@ class Engine(object):
                 else:
                     split_expr_s = split_expr
                 penv = dict(env)
+                if isinstance(split_expr, dict) and split_expr.get("bind_fields"):
+                    for path, val in split_expr["bind_fields"].items():
+                        parts = path.split(".")
+                        o = env[parts[0]]
+                        for pp in parts[1:-1]:
+                            o = o.fields[pp]
+                        o.fields[parts[-1]] = from_py(val)
                 if isinstance(split_expr, dict) and split_expr.get("module_state"):
                     for path, expr in split_expr["module_state"].items():
                         modname, _, attr = path.rpartition(".")
